@@ -132,6 +132,41 @@ Theorem C19_reject_before_push :
 Proof. exact reject_before_push. Qed.
 Print Assumptions C19_reject_before_push.
 
+(* ... with exactly the error the order of the checks in the source gives. *)
+Theorem C19_reject_exact_error :
+  forall (marshal : manifest -> str) (H : str -> str),
+  forall f tc fa s at_ o now,
+    must_reject f at_ o = true ->
+    pack marshal H f tc fa s at_ o now = (s, Err (reject_err f at_ o)).
+Proof. exact reject_exact. Qed.
+Print Assumptions C19_reject_exact_error.
+
+(* Progress: on a target that does not fail (no injected fault; not a file store, which may refuse a
+   taken name) the input alone decides: rejected / malformed created / success.  A valid input succeeds. *)
+Theorem C19_healthy_target_classification :
+  forall (marshal : manifest -> str) (H : str -> str), H empty_json = empty_json_digest ->
+  forall f tc s at_ o now s' r,
+    t_key tc <> KFile ->
+    pack marshal H f tc None s at_ o now = (s', r) ->
+    (must_reject f at_ o = true /\ exists e, r = Err e /\ validation_err e /\ s' = s) \/
+    (must_reject f at_ o = false /\ ensure_created (o_ann o) (created_key f) now = None /\ r = Err EInvalidDateTime) \/
+    (must_reject f at_ o = false /\
+     exists ann, ensure_created (o_ann o) (created_key f) now = Some ann /\
+                 r = Ok (result_desc marshal H f (requested_manifest H f at_ o ann)) (requested_manifest H f at_ o ann)).
+Proof. exact healthy_target_classification. Qed.
+Print Assumptions C19_healthy_target_classification.
+
+Theorem C19_valid_input_succeeds :
+  forall (marshal : manifest -> str) (H : str -> str), H empty_json = empty_json_digest ->
+  forall f tc s at_ o now ann s' r,
+    t_key tc <> KFile ->
+    must_reject f at_ o = false ->
+    ensure_created (o_ann o) (created_key f) now = Some ann ->
+    pack marshal H f tc None s at_ o now = (s', r) ->
+    r = Ok (result_desc marshal H f (requested_manifest H f at_ o ann)) (requested_manifest H f at_ o ann).
+Proof. exact valid_input_succeeds. Qed.
+Print Assumptions C19_valid_input_succeeds.
+
 (* ... and those errors never occur after a storage operation; a success implies that
    nothing had to be rejected. *)
 Theorem C19_validation_error_only_before_push :
